@@ -10,13 +10,153 @@ dataflow facts about CompilationScope::resolve_overload (syntax tree):
 """
 import re
 from .lib import astq
-from .lib.facts import find_nodes, walk
+from .lib.facts import find_nodes, walk, strip_generics
 
 F = 'src/compilation_scope.rs'
 
 
 def src(n):
     return re.sub(r'\s+', '', n.get('s') or '')
+
+
+def natural_loops(b):
+    """[(header, set(blocks))] from back edges u->h with h dominating u (normal edges)"""
+    dom = b.dominators()
+    loops = {}
+    preds = b.preds()
+    for u, ss in enumerate(b.succs()):
+        if u not in dom:
+            continue
+        for h in ss:
+            if h in dom[u]:
+                body = {h, u}
+                st = [u]
+                while st:
+                    x = st.pop()
+                    if x == h:
+                        continue
+                    for q in preds[x]:
+                        if q not in body and q in dom:
+                            body.add(q)
+                            st.append(q)
+                loops.setdefault(h, set()).update(body)
+    return sorted(loops.items())
+
+
+def decision_table(ctx, r3, bucket_names):
+    """R05.3: abstractly evaluate the code after the candidate loop for every (|exact|, |generic|) in {0,1,2,3}^2 and compare
+    the reachable decision with the documented one.  Works on MIR, so an if-chain, a match on a tuple of lengths or early
+    returns are all the same to it."""
+    from .lib import absint
+    from .lib.facts import callee_name, op_place
+    bs = ctx.mir.find('compilation_scope::CompilationScope::resolve_overload')
+    if len(bs) != 1:
+        r3.fail('anchor/resolve_overload-mir', F, 'MIR body of resolve_overload not found (%d)' % len(bs))
+        return
+    b = bs[0]
+    dbg = {v['name']: v['val']['l'] for v in b.dbg if 'l' in v['val'] and not v['val']['p']}
+    tiers = [n for n in ('exact_matches', 'generic_matches', 'dynamic_matches') if n in dbg and n in bucket_names]
+    if tiers[:2] != ['exact_matches', 'generic_matches']:
+        r3.fail('anchor/buckets', F, 'bucket locals exact_matches / generic_matches not found in the MIR debug info (%s)' % sorted(dbg)[:8])
+        return
+    key_of = {n: '_%d' % dbg[n] for n in tiers}
+    name_of = {v: k for k, v in key_of.items()}
+    # the candidate loop: the natural loop that contains a push on a bucket
+    push_blocks = [i for i, t in b.calls() if (callee_name(t) or '').endswith('Vec::<T, A>::push')]
+    loops = [(h, body) for h, body in natural_loops(b) if any(pb in body for pb in push_blocks)]
+    if not loops:
+        r3.fail('anchor/loop-mir', F, 'candidate loop not found in the MIR')
+        return
+    h, body = max(loops, key=lambda x: len(x[1]))
+    # the normal exit: the edge taken when the candidate iterator is exhausted (a switch on the discriminant of the value
+    # returned by Iterator::next); the other exits are `?` error returns and the short-circuit return judged by R05.2
+    exits = set()
+    defs = b.defs()
+    for u in body:
+        tm = b.blocks[u]['term']
+        if tm['k'] != 'switch':
+            continue
+        outs = [s for s in b.succs()[u] if s not in body]
+        dl = op_place(tm['discr'])
+        if not outs or dl is None:
+            continue
+        for kind, bb_, idx_, x in defs.get(dl['l'], []):
+            if kind == 'stmt' and x['rv']['k'] == 'discr':
+                src_l = x['rv']['place']['l']
+                for k2, bb2, idx2, x2 in defs.get(src_l, []):
+                    if k2 == 'call' and re.search(r'(^|::)next$', strip_generics(callee_name(x2) or '')):
+                        exits.update(outs)
+    exits = sorted(exits)
+    if not exits:
+        r3.fail('anchor/loop-exit', F, 'the exhausted-iterator exit of the candidate loop was not found in the MIR')
+        return
+
+    def ref_target(v):
+        return v[1] if isinstance(v, tuple) and v and v[0] == 'ref' else None
+
+    def run_for(lens):
+        def oracle(t, vals, env):
+            cn = callee_name(t) or ''
+            tgt = ref_target(vals[0]) if vals else None
+            # a reference to a reference local (&mut *_r)
+            while tgt is not None and tgt.endswith('/*') and isinstance(env.get(tgt[:-2]), tuple) and env[tgt[:-2]][0] == 'ref':
+                tgt = env[tgt[:-2]][1]
+            if tgt in lens:
+                if cn.endswith('Vec::<T, A>::len'):
+                    return lens[tgt]
+                if cn.endswith('Vec::<T, A>::is_empty'):
+                    return lens[tgt] == 0
+                if cn.endswith('Vec::<T, A>::swap_remove') or cn.endswith('Vec::<T, A>::remove'):
+                    return ('tuple', ('taken', tgt, vals[1] if len(vals) > 1 else None))
+                if cn.endswith('Vec::<T, A>::pop'):
+                    return ('tuple', ('taken', tgt, lens[tgt] - 1))
+            return absint.UNKNOWN
+
+        def event(kind, bb, idx, node, env, R):
+            if kind == 'term' and node['k'] == 'call' and (callee_name(node) or '').endswith('resolve_overload::prepare_return'):
+                v = R.opval(env, node['args'][1]) if len(node['args']) > 1 else None
+                if isinstance(v, tuple) and v[0] == 'tuple' and v[1] and v[1][0] == 'taken':
+                    _, tgt, ix = v[1]
+                    if isinstance(ix, int) and 0 <= ix < lens[tgt]:
+                        return 'take:' + name_of[tgt]
+                    return 'take-out-of-range:' + name_of[tgt]
+                return 'take:unrecognised-source'
+            if kind == 'stmt' and node['k'] == 'assign' and node['rv']['k'] == 'agg' and node['rv'].get('ak') == 'adt' \
+                    and node['rv']['adt'].endswith('CompilationError'):
+                if node['rv']['v'] == 'AmbiguousOverload':
+                    return 'ambiguous'
+                if node['rv']['v'] == 'NoOverload':
+                    return 'no-overload'
+            return None
+
+        R = absint.Region(b, oracle, event)
+        evs = set()
+        over = False
+        for x in exits:
+            e, silent, o = R.run(x, {})
+            evs |= e
+            over = over or o
+        return evs, over
+
+    n_dec = 0
+    for e in (0, 1, 2, 3):
+        for g in (0, 1, 2, 3):
+            lens = {key_of['exact_matches']: e, key_of['generic_matches']: g}
+            for extra in tiers[2:]:
+                lens[key_of[extra]] = 0
+            want = 'take:exact_matches' if e == 1 else 'ambiguous' if e > 1 else 'take:generic_matches' if g == 1 else 'ambiguous' if g > 1 else 'no-overload'
+            if len(tiers) > 2 and e == 0 and g == 0:
+                want = 'no-overload'
+            evs, over = run_for(lens)
+            ok = evs == {want} and not over
+            n_dec += 1
+            r3.inst({'exact_matches': e, 'generic_matches': g, 'documented': want, 'reachable_decisions': sorted(evs)}, ok=ok, kind=(e, g))
+            if not ok:
+                r3.fail('decision/exact=%s,generic=%s' % (e if e < 2 else '2+' if e == 2 else '3+', g if g < 2 else '2+' if g == 2 else '3+'),
+                        '%s:%s' % (F, b.span.split(':')[1] if ':' in b.span else ''),
+                        'with %d exact and %d generic matching candidates the code after the candidate loop can decide %s; documented: %s%s'
+                        % (e, g, sorted(evs) or ['nothing (returns without taking a candidate or reporting)'], want, ' (state bound hit)' if over else ''))
+    r3.need(16)
 
 
 def run(ctx):
@@ -85,66 +225,9 @@ def run(ctx):
     # `?` inside the loop can only abort with an error; `continue` skips a candidate on a per-candidate condition
     r2.need(1)
 
-    # ---------------- R05.3
+    # ---------------- R05.3 (decision table over the MIR; independent of the syntactic form of the selection code)
     r3 = ctx.rule('R05.3', 'take only from singleton buckets; >1 is ambiguity; exact before generic; else NoOverload')
-    after = []
-    seen = False
-    for st in fn['body']:
-        if st is loop:
-            seen = True
-            continue
-        if seen:
-            after.append(st)
-    seq = []
-    for st in after:
-        if st.get('k') == 'if':
-            c = src(st['cond'])
-            m = re.match(r'^(\w+)\.len\(\)(==|>|>=|!=|<)(\d+)$', c)
-            body = st['then']
-            rets = [x for x, _ in find_nodes(body, lambda y: y.get('k') == 'return')]
-            kind = None
-            if rets:
-                e = src(rets[0]['expr'])
-                if 'prepare_return' in e:
-                    kind = 'take'
-                    taken = re.search(r'(\w+)\.(swap_remove|remove)\((\d+)\)|(\w+)\.pop\(\)|(\w+)\[(\d+)\]', e)
-                    src_bucket = (taken.group(1) or taken.group(4) or taken.group(5)) if taken else None
-                elif 'AmbiguousOverload' in e or find_nodes(rets[0], lambda y: y.get('k') == 'struct' and y['path'].endswith('AmbiguousOverload')):
-                    kind = 'ambiguous'
-                    src_bucket = None
-                else:
-                    kind = 'other'
-                    src_bucket = None
-            seq.append((m.group(1) if m else None, (m.group(2) + m.group(3)) if m else c, kind, src_bucket if rets else None, st['line']))
-        else:
-            last = st
-    shape_ok = True
-    expected = []
-    order = [b for b in ('exact_matches', 'generic_matches', 'dynamic_matches') if b in buckets]
-    for b in order:
-        expected += [(b, '==1', 'take', b), (b, '>1', 'ambiguous', None)]
-    got = [(a, b, c, d) for a, b, c, d, _ in seq]
-    for e in expected:
-        ok = e in got
-        r3.inst({'expected_step': e}, ok=ok, kind=e)
-        if not ok:
-            r3.fail('post/%s%s' % (e[0], e[1]), '%s:%d' % (F, fn['line']), 'after the loop, step %s is missing (found %s): a bucket could be used without a singleton test or an ambiguity could be resolved silently' % (e, got))
-    if all(e in got for e in expected):
-        idx = [got.index(e) for e in expected]
-        ok = idx == sorted(idx)
-        r3.inst({'tier_order': [e[0] for e in expected][::2]}, ok=ok)
-        if not ok:
-            r3.fail('post/order', '%s:%d' % (F, fn['line']), 'buckets are not consulted in rank order')
-    extra = [g for g in got if g not in expected]
-    for g in extra:
-        r3.inst({'unexpected_step': g}, ok=False)
-        r3.fail('post/extra-%s' % (g[0] or 'cond'), '%s:%d' % (F, fn['line']), 'unexpected selection step %s after the loop' % (g,))
-    tail = after[-1] if after else None
-    ok = tail is not None and 'NoOverload' in (tail.get('s') or src(tail) or '') or bool(find_nodes(tail, lambda y: y.get('k') == 'struct' and y['path'].endswith('NoOverload')))
-    r3.inst({'final': 'Err(NoOverload)'}, ok=ok)
-    if not ok:
-        r3.fail('post/no-overload', '%s:%d' % (F, fn['line']), 'the function does not end in NoOverload when no bucket has a candidate')
-    r3.need(5)
+    decision_table(ctx, r3, buckets)
 
     # ---------------- R05.4
     r4 = ctx.rule('R05.4', 'bucket choice depends on (is_generic, is_unknown) only')
